@@ -15,6 +15,7 @@ EXPLANATION = ("Structural necessary conditions, mapper and cache: finished clas
                "one entry, and all remaining entries carry the first entry's original name, returning that name - the same field the line "
                "iterator emits; remap_throwable maps the class through remap_class and passes the message. Sortedness of the class section "
                "comes from the BTreeMap (C09.6). Composition is a paper argument.")
+EXPLANATION = EXPLANATION + ' remap_method of the cache decides over the slice the equal-range search returns (decided here as well).'
 RULE_TEXT = R1.RULE_TEXT
 TRUSTED = R1.TRUSTED
 
